@@ -12,8 +12,9 @@ Oracle (the statement, nothing more):
     attributes whose st_size is the source length; getfo returns the source length;
   * otherwise it raised (any exception type) - accepted;
   * pwrite: if the server rejected a write, some call up to and including close() raised;
-  * a call that neither returns nor raises within 30 s is reported as "blocks"
-    (the channel is closed to release it);
+  * a call that neither returns nor raises is reported as "blocks": proven deadlock (both ends
+    parked in recv on a drained link) or 30 s without any traffic on the link, three times in a
+    row (the channel is closed to release it);
   * sanity against vacuity: without a fault that was actually hit, the transfer must succeed.
 SFTP_EOF is not used as a read fault: an EOF status is the protocol's way of saying
 "the file ends here", so a shorter result is then the honest answer (recorded assumption).
@@ -23,6 +24,7 @@ import io
 import os
 import shutil
 import threading
+import time
 
 from hypothesis import strategies as st
 
@@ -170,7 +172,22 @@ def execute(ctx, case, _attempt=0):
     cchan, schan, sth, _server = env._sessions[0]
     try:
         # "blocks" = proven deadlock (both ends parked in recv on a drained link) or BOUND_S without return
-        status, value, g = W.run_guarded(call, BOUND_S, W.deadlock_proof(cchan, schan, sth, baseline))
+        proof = W.deadlock_proof(cchan, schan, sth, baseline)
+        traffic = {"n": None, "t": time.monotonic()}
+
+        def poll(th):
+            why = proof(th)
+            if why:
+                return why
+            n = (cchan.sent, cchan.received)
+            now = time.monotonic()
+            if n != traffic["n"]:
+                traffic["n"], traffic["t"] = n, now  # still moving data: slow is not blocked
+            elif now - traffic["t"] > BOUND_S:
+                return "no return and no traffic on the link for %.0f s" % BOUND_S
+            return None
+
+        status, value, g = W.run_guarded(call, 40 * BOUND_S, poll)
         if status == "stuck":
             where = W.where(g.thread)
             env.client_chan.close()
@@ -302,7 +319,10 @@ def case_st(draw):
         elif draw(st.booleans()):
             case["fault"] = ["r", k, "error", draw(st.sampled_from(READ_CODES))]
         else:
-            case["fault"] = ["r", k, "short", draw(st.sampled_from([1, 2, 100, 8191, 8192, 32767]))]
+            n = draw(st.sampled_from([1, 2, 100, 8191, 8192, 32767]))
+            if k == -1:
+                n = max(n, size // 1500)  # "every read is short": keep the transfer below ~1500 round trips
+            case["fault"] = ["r", k, "short", n]
     return case
 
 
@@ -344,6 +364,20 @@ def enumerated(max_chunks):
     return out
 
 
+
+def _explore(ctx, strategy, body, n, **kw):
+    """ctx.explore, but a violation found while hypothesis runs out of budget mid-shrink (the body is
+    then skipped, hypothesis calls the test flaky) is still reported, with the last failing case."""
+    try:
+        ctx.explore(strategy, body, n, **kw)
+    except Exception as e:
+        last = getattr(ctx, "_last_fail", None)
+        if type(e).__name__ in ("FlakyFailure", "Flaky", "FlakyReplay") and last:
+            ctx._record_unknown(*last)
+        else:
+            raise
+
+
 def run(ctx):
     ctx.set_budget(70, 1500)
     ctx.assume("SFTP_EOF is not injected as a read fault: an EOF status legitimately ends the file for the client")
@@ -361,7 +395,7 @@ def run(ctx):
     ctx.note("enumerated_cases", done)
     if not ctx.quick:
         ctx.exhaustive = done == len(mine)
-    ctx.explore(case_st(), lambda c: execute(ctx, c), ctx.scale(200, 1500))
+    _explore(ctx, case_st(), lambda c: execute(ctx, c), ctx.scale(200, 4000))
 
 
 def replay(ctx, case):
